@@ -160,7 +160,7 @@ def render(p):
             o.flag("inherited", l0, col, m.name)
         # declarations
         for v in m.locals:
-            l = o.line("  var %s : %s" % (v.name, v.ty))
+            l = o.line("  var %s : %s" % (v.name, rc(v.ty)))
             if v.name[0].isupper():
                 o.flag("naming:local", l, 6, v.name)
             if not mentioned_in_own_method(v):
